@@ -16,7 +16,10 @@ AE = [None, 'gzip', 'deflate', 'gzip, deflate', 'deflate, gzip', 'gzip;q=0.5', '
 PAYLOADS = ['plain', 'quote " inside', 'back\\slash', 'both \\" mixed', 'line\nfeed', 'cr\rhere',
             'ls ps ', 'nul\x00ctl\x1f\x7f', 'astral \U0001F600', 'sep\x1einside',
             '</script><!--', "single ' quote", 'tab\there', 'é ü 中',
-            {'k': 'v"\\\n '}, [1, 'a\\"'], b'\x00\x01binary\xff', b'', 'x' * 300]
+            {'k': 'v"\\\n '}, [1, 'a\\"'], b'\x00\x01binary\xff', b'', 'x' * 300,
+            # terminators at the very end / alone (a pattern anchored with $ lets one slip by)
+            'line one\n', '\n', 'safe-chars.only\r', 'word\u2028', '\u2029', 'a\r\n', 'trailing\\',
+            'trailing"', 'YWJj\n']
 
 
 def offered_of(ae):
